@@ -1,0 +1,89 @@
+//! Verification hooks.  Compiled only with `--cfg rescrv_blue_verif`; inert otherwise.
+//!
+//! The daemon loops of the store (`KeyValueStore::memtable_thread`, `LsmTree::compaction_thread`)
+//! never return.  A deterministic simulator needs to (a) run exactly one unit of background work
+//! and get control back, and (b) join the daemons at the end of an execution.  The [Control] block
+//! lets a loop *return* where it would otherwise block or iterate again.  It never changes a
+//! decision the loop takes.
+
+use std::sync::atomic::{AtomicBool, AtomicI64, AtomicU64, Ordering};
+
+/// Per-tree control block consulted by the daemon loops.
+#[derive(Debug)]
+pub struct Control {
+    stop: AtomicBool,
+    return_when_idle: AtomicBool,
+    budget: AtomicI64,
+    work_done: AtomicU64,
+}
+
+impl Default for Control {
+    fn default() -> Self {
+        Self {
+            stop: AtomicBool::new(false),
+            return_when_idle: AtomicBool::new(false),
+            budget: AtomicI64::new(-1),
+            work_done: AtomicU64::new(0),
+        }
+    }
+}
+
+impl Control {
+    /// Ask every daemon loop to return at its next check.
+    pub fn set_stop(&self, stop: bool) {
+        self.stop.store(stop, Ordering::SeqCst);
+    }
+
+    /// True iff stop was requested.
+    pub fn stop_requested(&self) -> bool {
+        self.stop.load(Ordering::SeqCst)
+    }
+
+    /// When set, a daemon loop returns instead of waiting on its condition variable.
+    pub fn set_return_when_idle(&self, x: bool) {
+        self.return_when_idle.store(x, Ordering::SeqCst);
+    }
+
+    /// Number of further loop iterations permitted; negative means unlimited.
+    pub fn set_budget(&self, iterations: i64) {
+        self.budget.store(iterations, Ordering::SeqCst);
+    }
+
+    /// Number of units of background work (flushes, compactions) completed so far.
+    pub fn work_done(&self) -> u64 {
+        self.work_done.load(Ordering::SeqCst)
+    }
+
+    pub(crate) fn note_work_done(&self) {
+        self.work_done.fetch_add(1, Ordering::SeqCst);
+    }
+
+    /// Consulted at the top of each loop iteration.
+    pub(crate) fn should_return_at_top(&self) -> bool {
+        if self.stop.load(Ordering::SeqCst) {
+            return true;
+        }
+        let budget = self.budget.load(Ordering::SeqCst);
+        if budget < 0 {
+            return false;
+        }
+        if budget == 0 {
+            return true;
+        }
+        self.budget.store(budget - 1, Ordering::SeqCst);
+        false
+    }
+
+    /// Consulted immediately before a loop would wait on its condition variable.
+    pub(crate) fn should_return_instead_of_wait(&self) -> bool {
+        self.stop.load(Ordering::SeqCst) || self.return_when_idle.load(Ordering::SeqCst)
+    }
+}
+
+/// A point at which the controlled scheduler may switch threads although the code performs no
+/// synchronization operation there.  A no-op unless built for the shuttle scheduler.
+#[inline]
+pub(crate) fn yield_point(_tag: &'static str) {
+    #[cfg(rescrv_blue_verif_shuttle)]
+    shuttle::thread::sleep(std::time::Duration::ZERO);
+}
